@@ -1,8 +1,8 @@
-import Stingray.Model.Layout
+import Stingray.Model.Odo
 import Stingray.Driver.Util
 /-! Line protocol for the layout family (C01, C06, C10): item trees as prefix tokens. -/
 namespace Stingray.Drv.Lay
-open Stingray.Layout Stingray.Drv
+open Stingray.Layout Stingray.Drv Stingray.Recfm
 
 def parseOcc (s : String) : Option Count :=
   if s = "-" then none
@@ -76,7 +76,36 @@ def showRange : Option (Nat × Nat) → String
   | some (a, b) => toString a ++ ":" ++ toString b
   | none => "none"
 
+/-- counter decoders: `name=z` zoned decimal (low nibbles), `name=b` big-endian binary -/
+def parseDecode (s : String) : String → Inst → Nat :=
+  let pairs := if s = "-" then [] else (s.splitOn ",").filterMap fun kv =>
+    match kv.splitOn "=" with
+    | [k, v] => some (k, v)
+    | _ => none
+  fun c bytes =>
+    match (pairs.find? (·.1 == c)).map (·.2) with
+    | some "b" => bytes.foldl (fun a b => a * 256 + b) 0
+    | _ => bytes.foldl (fun a b => a * 10 + b % 16) 0
+
+def showRecs (rs : List Bytes) : String :=
+  "n=" ++ toString rs.length ++ " " ++
+    joinWith "," (rs.map fun r => toString r.length ++ ":" ++ toString (rolling r))
+
 def handle : List String → String
+  | "walk" :: kinds :: rec :: toks =>
+    match parseItem toks with
+    | some (it, []) =>
+      match rowLength (parseDecode kinds) (emit it) (unhex rec) with
+      | some n => toString n
+      | none => "none"
+    | _ => "bad-tree"
+  | "rows" :: cap :: kinds :: file :: toks =>
+    match parseItem toks with
+    | some (it, []) =>
+      let f := unhex file
+      let (rs, ok) := rowsN (rowLength (parseDecode kinds) (emit it)) cap.toNat! (f.length + 1) (initN cap.toNat! f)
+      showRecs rs ++ (if ok then " ok" else " error")
+    | _ => "bad-tree"
   | "dump" :: toks =>
     match parseItem toks with
     | some (it, []) => dump (emit it)
